@@ -13,6 +13,8 @@ SIM = "acnportal.acnsim.simulator.Simulator."
 AE = "acnportal.acnsim.events.acndata_events."
 EVT = "acnportal.acnsim.events.event."
 EQ = "acnportal.acnsim.events.event_queue.EventQueue."
+CURR = "acnportal.acnsim.network.current.Current."
+TOU = "acnportal.signals.tariffs.tou_tariff.TimeOfUseTariff."
 SN = "acnportal.contrib.acnsim.network.stochastic_network.StochasticNetwork."
 
 TRUSTED_COMMON = [
@@ -31,7 +33,7 @@ BATTERY_FNS = [B + "Battery.__init__", B + "Battery.charge", B + "Battery.reset"
                B + "Linear2StageBattery._charge", B + "Linear2StageBattery._charge_stepwise"]
 SET_PILOT = [S + "BaseEVSE.set_pilot@EVSE", S + "BaseEVSE.set_pilot@DeadbandEVSE", S + "BaseEVSE.set_pilot@FiniteRatesEVSE"]
 
-SHARDS = {"acnportal.acnsim.interface.Interface.is_feasible": 8, NET + "is_feasible": 6, NET + "constraint_current": 4, "acnportal.algorithms.utils.infrastructure_constraints_feasible": 4, SA + "sorting_algorithm": 8, SN + "unplug": 6, SN + "post_charging_update": 4, SN + "plugin": 3, SIM + "_update_schedules": 8, SIM + "_store_actual_charging_rates": 4, B + "batt_cap_fn": 8, AE + "_convert_to_ev": 4, SIM + "run": 16, SIM + "_process_event": 4, EQ + "get_current_events": 8, EQ + "add_events": 3, EQ + "__init__": 3, B + "Linear2StageBattery._charge": 6, B + "Linear2StageBattery._charge_stepwise": 2}
+SHARDS = {NET + "add_constraint": 12, NET + "update_constraint": 4, "acnportal.acnsim.interface.Interface.is_feasible": 8, NET + "is_feasible": 6, NET + "constraint_current": 4, "acnportal.algorithms.utils.infrastructure_constraints_feasible": 4, SA + "sorting_algorithm": 8, SN + "unplug": 6, SN + "post_charging_update": 4, SN + "plugin": 3, SIM + "_update_schedules": 8, SIM + "_store_actual_charging_rates": 4, B + "batt_cap_fn": 8, AE + "_convert_to_ev": 4, SIM + "run": 16, SIM + "_process_event": 4, EQ + "get_current_events": 8, EQ + "add_events": 3, EQ + "__init__": 3, B + "Linear2StageBattery._charge": 6, B + "Linear2StageBattery._charge_stepwise": 2}
 
 EVSE_FNS = [S + x for x in (
     "BaseEVSE.__init__", "EVSE.__init__", "DeadbandEVSE.__init__", "FiniteRatesEVSE.__init__",
@@ -243,16 +245,32 @@ PLAN = {
     ),
     "C12": dict(
         level="other",
+        functions=[CURR + "__add__", CURR + "__sub__", CURR + "__mul__", NET + "add_constraint", NET + "remove_constraint", NET + "update_constraint",
+                   NET + "register_evse", NET + "constraint_current", NET + "station_ids"],
         bounded=[dict(module="rt.netmon", fn="constraint_monitor", label="add/remove/update/register sequences with algebra-built Currents against the row model")],
-        text="BOUNDED so far: seeded sequences of add_constraint (with Currents built by nested sums, differences and scalar multiples from dict / list / "
-             "str, incl. duplicate names), remove_constraint, update_constraint, register_evse and subset queries; after every operation row i of the "
-             "constraint matrix must hold exactly the coefficient of every station (0 if absent) in registration order together with limit i and name "
-             "i; an unknown station raises KeyError and leaves matrix, limits, names and stations unchanged; registration after constraints raises; "
-             "constraint_current for a subset returns the rows in network order and the requested columns; every algebra result is a Current whose "
-             "coefficients are the pointwise sum / difference / multiple with absent stations read as 0.",
-        note="no obligation is proved for C12 (pandas DataFrame code is outside the verifier's reach without a large axiomatisation)",
-        explanation="bounded run-time contract monitor only (rt.netmon.constraint_monitor)",
-        technique="run-time contract monitor on the real functions against a row model (bounded stand-in)",
+        text="PROVED (all Currents over arbitrary station subsets, all tables, all registration orders; by induction over calls, no bound): the Current "
+             "algebra - a + b, a - b, c * a (and the reflected forms, which are the same methods) return a NEW Current whose coefficient at every station "
+             "is the pointwise sum / difference / multiple with absent stations read as 0; add_constraint appends exactly one row that holds, for every "
+             "registered station in registration order, that station's coefficient in the Current (0 if absent) - whatever order the Current lists its "
+             "stations in -, appends the limit and the name (the given name when it is free), leaves every existing row, limit and name untouched, raises "
+             "KeyError exactly when the Current mentions an unregistered station and then changes nothing; the first constraint of a network (empty "
+             "frame branch, loop invariant) and later ones (concat branch) alike; remove_constraint removes the first row carrying the name together with "
+             "its limit and its name, every other (row, limit, name) triple stays aligned, KeyError exactly for an unused name; update_constraint = that "
+             "removal followed by that addition (the updated constraint becomes the last row); register_evse appends the station to the registration "
+             "order with its voltage and phase angle and raises EVSERegistrationError exactly when constraints exist; constraint_current returns the "
+             "rows in network order and the requested periods in the order given (see C06). The alignment invariant (M names, M limits, M x N matrix) is "
+             "preserved by all of them. BOUNDED: aggregate currents for a SUBSET of constraint names (the order-preserving selection), duplicate-name "
+             "suffixing, Current construction from str / list, long mixed sequences.",
+        note="pandas per A-LIB (pyvc/pdlib.py): a Series is a finite mapping label -> number, Series.add(fill_value=0) is the union-sum, scalar multiple; a "
+             "DataFrame is (row labels, column labels, cell and NaN functions of (row position, column label)) with DataFrame(matrix, columns, index), "
+             "to_frame().T, frame[label] = scalar, concat of two frames (missing cells NaN), fillna, reindex(columns=), to_numpy (obligation: no NaN left), "
+             "index; np.append / np.delete; '_const_{n}'.format and name + '_v2' are uninterpreted functions into identifiers; _update_info_store enters "
+             "through a frame-only contract (it only rewrites the five cached descriptions); update_constraint with an unregistered station raises after the "
+             "removal has happened (the constraint is lost) - outside the property's statement, noted in DESIGN",
+        explanation="proved: Current algebra, add / remove / update_constraint, register_evse against the row model (pyvc/z3 over a pandas axiomatisation); "
+                    "bounded: subset queries and long mixed sequences (rt.netmon.constraint_monitor)",
+        technique="contract-based deductive verification over an axiomatisation of the pandas / numpy operations used (pyvc/z3) + run-time contract monitor (bounded)",
+        trusted=["A-LIB pandas / numpy as listed in the note (each exercised against the real library by the monitor's sequences)"],
     ),
     "C16": dict(
         level="other",
@@ -314,18 +332,29 @@ PLAN = {
     ),
     "C17": dict(
         level="other",
+        functions=[TOU + "_get_tariff_schedule", TOU + "get_tariff", TOU + "get_tariffs", TOU + "get_demand_charge",
+                   "acnportal.acnsim.interface.Interface.get_prices", "acnportal.acnsim.interface.Interface.get_demand_charge"],
+        lemmas=["C17.period_offsets_add"],
         bounded=[dict(module="rt.fnmon", fn="tariff_monitor", label="all bundled tariffs x every (month, day, weekday) x every breakpoint; interface / analysis alignment")],
-        text="EXHAUSTIVE over the finite part, BOUNDED otherwise: for each of the five bundled tariff files the real constructor and lookups "
-             "are run for every (month, day, weekday) triple (the only parts of a date the schedule choice depends on) and, around every "
-             "breakpoint of the day's schedule, at the breakpoint, +-1 minute, +1 second, 00:00 and 23:59 - the result must be total (no "
-             "exception), and equal the rate of the latest breakpoint at or before that time of day of the unique schedule that an independent "
-             "reading of the JSON file (cyclic inclusive seasons, weekday/weekend class) selects; one tariff object is used across all years; "
-             "get_tariffs = per-period lookup at start + k x period; Interface.get_prices / get_demand_charge aligned with simulation time "
-             "for start in {None, 0, 1, current, 7}; analysis.energy_cost = sum(price x power x dt), demand_charge = rate x peak power.",
-        note="no obligation is proved for C17 yet (Decimal / datetime arithmetic and list-of-tuple sorting are inside the verifier's reach but "
-             "not yet under contract); the date part is exhaustive, times of day are sampled at and around every breakpoint",
-        explanation="exhaustive over (tariff file, month, day, weekday); bounded over times of day, vector lengths, simulations (rt.fnmon.tariff_monitor)",
-        technique="run-time contract monitor on the real functions against an independent reading of the data files (exhaustive over dates, bounded otherwise); deductive obligations pending",
+        text="PROVED (every well-formed schedule list - any number of schedules, seasons, weekday masks, breakpoint lists - and every instant; no bound): "
+             "_get_tariff_schedule returns the schedule in effect (weekday mask admits the weekday, (month, day) inside the inclusive season) when exactly "
+             "one is, and raises ValueError exactly when none or several are; get_tariff returns the rate of the latest breakpoint at or before the time of "
+             "day (hour + minute/60 + second/3600, exact Decimal arithmetic) of that schedule - loop invariant over the descending breakpoint list, the "
+             "final 'could not find a price' error is unreachable because every list starts at hour 0; get_demand_charge returns that schedule's demand "
+             "charge; get_tariffs(start, n, period) has n entries and entry k is the lookup at start + k x period (and raises exactly when some of those "
+             "instants has no unique schedule); Interface.get_prices / get_demand_charge are aligned with simulation time: entry k is the price of "
+             "simulation period (start or current) + k, i.e. of the instant sim.start + (start + k) x period. EXHAUSTIVE / BOUNDED (run-time contracts on the "
+             "real functions): that each of the five bundled files yields a well-formed list which is total and unambiguous for every (month, day, "
+             "weekday) - a finite fact about data, seasons wrapping the new year included -, the constructor's parsing, analysis.energy_cost / demand_charge.",
+        note="a datetime is an object with a ghost instant theta; weekday / month / day / hour / minute / second are uninterpreted functions of theta with "
+             "their ranges (A-LIB: one fixed zone per run), datetime + k x timedelta(minutes=p) has theta + 60 p k; Decimal arithmetic is exact; "
+             "sorted(list of tuples, reverse=True) is a descending rearrangement (A-LIB); TariffSchedule / TimeOfUseTariff constructors (file IO, string "
+             "parsing) are outside the verifier's reach and covered exhaustively by the monitor over the five files",
+        explanation="proved: the four lookups and the interface alignment for every well-formed schedule list (pyvc/z3); exhaustive over (tariff file, month, day, "
+                    "weekday) and bounded otherwise: constructors, data files, analysis costs (rt.fnmon.tariff_monitor)",
+        technique="contract-based deductive verification of the lookups over an abstract calendar (pyvc/z3) + exhaustive run-time contract monitor over the bundled data files",
+        trusted=["A-LIB datetime: calendar fields are functions of the instant; datetime + timedelta shifts the instant; Decimal = exact rationals; "
+                 "sorted() of numeric tuples is a lexicographically ordered rearrangement"],
     ),
     "C19": dict(
         level="other",
